@@ -64,6 +64,27 @@ func (e *eng) Exec(op []string) string {
 		return strings.Join(res, " || ")
 	case "wnack":
 		return e.w.Downs[a(1)].Nack(uint16(a(2)), 0) + " | " + e.w.Downs[a(1)].Layer()
+	case "sendseq":
+		// sendseq kf last failAt first count holes(comma separated or -): the real sendSequence on a real cache
+		holes := map[uint16]bool{}
+		if op[6] != "-" {
+			for _, h := range strings.Split(op[6], ",") {
+				holes[uint16(common.Atoi(h))] = true
+			}
+		}
+		var cached []uint16
+		for i := 0; i < a(5); i++ {
+			sq := uint16(a(4) + i)
+			if !holes[sq] {
+				cached = append(cached, sq)
+			}
+		}
+		out := rtpconn.VerifSendSequence(uint16(a(1)), uint16(a(2)), cached, a(3))
+		res := []string{fmt.Sprint(len(out))}
+		for _, sq := range out {
+			res = append(res, fmt.Sprint(sq))
+		}
+		return strings.Join(res, " ")
 	case "late":
 		e.lates = append(e.lates, e.w.Late(time.Duration(a(1))*time.Microsecond))
 		return "ok"
@@ -83,7 +104,47 @@ func (e *eng) Exec(op []string) string {
 	panic("unknown op " + op[0])
 }
 
+// genSendSeq: the keyframe replay on caches with and without holes, across the 16-bit wrap, with kf after
+// last, with a failing write.
+func genSendSeq(t *common.Trace, e common.Engine, r *common.Rng, thorough bool) {
+	t.Case("sendseq")
+	e.Reset()
+	n := 300
+	if thorough {
+		n = 6000
+	}
+	for i := 0; i < n; i++ {
+		first := common.Pick(r, r.Intn(65536), 65536-r.Range(1, 40), r.Intn(100))
+		count := r.Range(1, 60)
+		kf := (first + r.Intn(count)) % 65536
+		last := (first + count - 1) % 65536
+		switch r.Intn(10) {
+		case 0:
+			last = (first + r.Intn(count)) % 65536 // possibly before kf
+		case 1:
+			kf = (first + 65536 - r.Range(1, 3)) % 65536 // keyframe already evicted
+		case 2:
+			last = (last + r.Range(1, 3)) % 65536 // newest not (yet) in the cache
+		}
+		holes := "-"
+		if r.Intn(4) == 0 {
+			var hs []string
+			for k := r.Range(1, 3); k > 0; k-- {
+				hs = append(hs, fmt.Sprint((first+r.Intn(count))%65536))
+			}
+			holes = strings.Join(hs, ",")
+		}
+		failAt := -1
+		if r.Intn(6) == 0 {
+			failAt = r.Intn(count + 1)
+		}
+		res := common.Do(t, e, fmt.Sprintf("sendseq %d %d %d %d %d %s", kf, last, failAt, first, count, holes))
+		t.Count("sendseq:n=" + map[bool]string{true: "0", false: "some"}[strings.HasPrefix(res, "0")])
+	}
+}
+
 func gen(t *common.Trace, e common.Engine, r *common.Rng, thorough bool) {
+	genSendSeq(t, e, r, thorough)
 	ncases := 40
 	nframes := 120
 	if thorough {
